@@ -47,9 +47,10 @@ def materialise(hist):
     segs = [ref.isa(ctl='000000001')[:-1].split('*')]
     for ev in hist:
         k = ev[0]
-        if k == 'ISA': segs.append(ref.isa(ctl=fmt_id('ISA', ev[1]))[:-1].split('*'))
-        elif k == 'GS': segs.append(['GS', 'HC', 'S', 'R', '20040608', '1333', fmt_id('GS', ev[1]), 'X', '004010X098A1'])
-        elif k == 'ST': segs.append(['ST', '837', fmt_id('ST', ev[1])])
+        # a third field 'P' = the same control number used by ANOTHER partner / for another type: still a reuse
+        if k == 'ISA': segs.append(ref.isa(ctl=fmt_id('ISA', ev[1]), **({'sender': 'OTHER', 'receiver': 'PARTNER'} if len(ev) > 2 else {}))[:-1].split('*'))
+        elif k == 'GS': segs.append(['GS', 'HC'] + (['S', 'R'] if len(ev) < 3 else ['S2', 'R2']) + ['20040608', '1333', fmt_id('GS', ev[1]), 'X', '004010X098A1'])
+        elif k == 'ST': segs.append(['ST', '837' if len(ev) < 3 else '835', fmt_id('ST', ev[1])])
         elif k == 'X': segs.append(['REF', 'A', 'B'])
         elif k == 'CLM': segs.append(['CLM', 'A', '1'])
         elif k == 'LX': segs.append(['LX', ev[1]])
@@ -93,7 +94,7 @@ def alphabet_lx_narrow():
 def alphabet_ids():
     """control numbers as TEXT: numeric and non-numeric header ids, trailers that repeat the id, write the same
     number differently (17 / 017), or carry another non-numeric text"""
-    evs = [('GS', 1), ('GS', 'A'), ('ST', 1), ('ST', 'A'), ('X',)]
+    evs = [('ISA', 1), ('ISA', 1, 'P'), ('GS', 1), ('GS', 1, 'P'), ('GS', 'A'), ('ST', 1), ('ST', 1, 'P'), ('ST', 'A'), ('X',)]
     for k in ('SE', 'GE', 'IEA'):
         for i in ('own', 'numeq', 'alpha'):
             evs.append((k, 'ok', i))
@@ -260,7 +261,7 @@ def run(R):
     s5 = bfs.search(R, expand_ids, [[]], d_ids, 'ids', max_states=3000000)
     R.cov['searches'] = [s1, s2, s3, s4, s5]
     R.bounds = {'alphabet': len(ALPHA), 'depth_lx': d_lx, 'depth_nolx': d_nolx, 'depth_narrow': d_narrow, 'narrow_alphabet': len(NARROW), 'depth_lx_narrow': d_lxn, 'lx_narrow_alphabet': len(LXNARROW), 'depth_ids': d_ids, 'ids_alphabet': len(IDS),
-                'events': 'ISA/GS/ST with id 1|2, body, CLM, LX 1|2, HL n in 1..3 x parent in {none,1,2,x}, SE/GE/IEA x count {true,true+1,x,empty,bare} x id {own,other}; ids search: GS/ST with id 1|A, SE/GE/IEA x id {own, same number written differently, other non-numeric text}'}
+                'events': 'ISA/GS/ST with id 1|2, body, CLM, LX 1|2, HL n in 1..3 x parent in {none,1,2,x}, SE/GE/IEA x count {true,true+1,x,empty,bare} x id {own,other}; ids search: ISA/GS/ST with id 1 (also under another sender/receiver pair or set type) | A, SE/GE/IEA x id {own, same number written differently, other non-numeric text}'}
     R.assumptions = ['HL/LX verdicts are not compared outside a transaction set, after the first HL parent error of a set, or for LX before any CLM (left open by the statement)',
                      'states are merged on (reader attributes, reference bookkeeping); histories are replayed on a fresh reader for every transition']
     return R.finish(LEVEL, 'BFS over segment histories; distinct = (nesting, last segment id, expected error codes)', exhaustive=True)
